@@ -1,6 +1,6 @@
 (* C18 -- discovery tables hold exactly what the sources say, and stay
    consistent.  Theorems only. *)
-From NX Require Import Bytes Discovery Mdns DiscoveryFacts LeaseFacts SortedFacts.
+From NX Require Import Bytes Discovery Mdns DiscoveryFacts LeaseFacts SortedFacts MdnsFacts.
 Open Scope Z_scope.
 
 Section C18_hosts.
@@ -118,3 +118,17 @@ Theorem C18_lease_once : forall es a,
   NoDup (lease_lookup_addr t a) /\ NoDup (lease_lookup_mac t a) /\ NoDup (lease_lookup_host t a).
 Proof. exact lease_lookups_nodup. Qed.
 Print Assumptions C18_lease_once.
+
+(* ---- the two mDNS views always agree ---- *)
+(* after any sequence of announcements (repeated, conflicting, beyond the cap: evictions included) an address is
+   listed under a name key iff a spelling of that name is listed under the address *)
+Theorem C18_mdns_views : forall cap ops s,
+  Agree s -> Agree (fold_left (fun s p => announce cap s (fst p) (snd p)) ops s).
+Proof. exact agree_announces. Qed.
+Print Assumptions C18_mdns_views.
+
+(* ... in the boolean form that is also evaluated on the implementation's own tables *)
+Theorem C18_mdns_views_bool : forall cap ops,
+  views_agree (fold_left (fun s p => announce cap s (fst p) (snd p)) ops mdns0) = true.
+Proof. exact views_agree_always. Qed.
+Print Assumptions C18_mdns_views_bool.
